@@ -83,3 +83,100 @@ func vh_el_equal(alias int) {
 	vObserveEl("P", p)
 	vObserveEl("Q", q)
 }
+
+// ---- C04 ----
+// kind: 0 Encode, 1 EncodeUncompressed, 2 XCoordinate, 3 MarshalBinary
+func vh_el_encode(kind int) {
+	p := vElement("p")
+	p0 := *p
+	vFreeze(p)
+	vMark()
+	var out []byte
+	var err error
+	switch kind {
+	case 0:
+		out = p.Encode()
+	case 1:
+		out = p.EncodeUncompressed()
+	case 2:
+		out = p.XCoordinate()
+	case 3:
+		out, err = p.MarshalBinary()
+	}
+	vObserve("out", out)
+	vObserve("err", err)
+	vObserveEl("P0", &p0)
+	vObserveEl("P", p)
+}
+
+func vh_el_hex() {
+	p := vElement("p")
+	vFreeze(p)
+	h := p.Hex()
+	vObserve("hex", h)
+	vObserve("enc", p.Encode())
+}
+
+// ---- C03 ----
+// via: 0 Decode, 1 DecodeCompressed, 2 DecodeUncompressed, 3 UnmarshalBinary
+func vh_el_decode(n int, via int) {
+	data := vNondetBytes("in", n)
+	e := vElement("e")
+	e0 := *e
+	vFreeze(data)
+	var err error
+	switch via {
+	case 0:
+		err = e.Decode(data)
+	case 1:
+		err = e.DecodeCompressed(data)
+	case 2:
+		err = e.DecodeUncompressed(data)
+	case 3:
+		err = e.UnmarshalBinary(data)
+	}
+	vObserve("err", err)
+	vObserveEl("E0", &e0)
+	vObserveEl("E", e)
+}
+
+func vh_el_decode_nil(via int) {
+	e := vElement("e")
+	e0 := *e
+	var err error
+	switch via {
+	case 0:
+		err = e.Decode(nil)
+	case 1:
+		err = e.DecodeCompressed(nil)
+	case 2:
+		err = e.DecodeUncompressed(nil)
+	case 3:
+		err = e.UnmarshalBinary(nil)
+	}
+	vObserve("err", err)
+	vObserveEl("E0", &e0)
+	vObserveEl("E", e)
+}
+
+func vh_el_decodecoords() {
+	var x, y [32]byte
+	copy(x[:], vNondetBytes("x", 32))
+	copy(y[:], vNondetBytes("y", 32))
+	e := vElement("e")
+	e0 := *e
+	err := e.DecodeCoordinates(x, y)
+	vObserve("err", err)
+	vObserveEl("E0", &e0)
+	vObserveEl("E", e)
+}
+
+func vh_el_decodehex(n int) {
+	h := vNondetHexString("h", n)
+	e := vElement("e")
+	e0 := *e
+	err := e.DecodeHex(h)
+	vObserve("err", err)
+	vObserveEl("E0", &e0)
+	vObserveEl("E", e)
+}
